@@ -41,8 +41,9 @@ def lsm_stub(t, dim, log):
     return T.Tensor(np.moveaxis(out, -1, dim), T.float32)
 
 
-def state_logits(n, first, cur, avail):
-    args = [_real(first), _real(cur)] + [_real(_bool(a)) for a in avail]
+def state_logits(n, first, cur, avail, tag=0.0):
+    """tag: something only this instance has (its first coordinate), so that different instances of a batch get different logits"""
+    args = [_real(tag), _real(first), _real(cur)] + [_real(_bool(a)) for a in avail]
     return [nnmod.UF(f"L_{j}", len(args))(*args) for j in range(n)]
 
 
@@ -61,13 +62,13 @@ def make_policy(w, n):
             Bp = td.batch_size[0]
             out = np.empty((Bp, n), dtype=object)
             for r in range(Bp):
-                out[r] = state_logits(n, td["first_node"].a.reshape(Bp)[r], td["current_node"].a.reshape(Bp)[r], td["action_mask"].a[r])
+                out[r] = state_logits(n, td["first_node"].a.reshape(Bp)[r], td["current_node"].a.reshape(Bp)[r], td["action_mask"].a[r], tag=td["locs"].a[r, 0, 0])
             return T.Tensor(out, T.float32), td["action_mask"]
 
     return base.ConstructivePolicy(Enc(), Dec(), env_name="tsp")
 
 
-def rederive(n, seq, forced_first):
+def rederive(n, seq, forced_first, tag=0.0):
     """independent re-derivation for TSP: per-step log-probability of each action of `seq` under the masked,
     normalised distribution of the state reached by the preceding actions (first move forced => contributes 0)"""
     avail, first, cur = [True] * n, None, None
@@ -77,7 +78,7 @@ def rederive(n, seq, forced_first):
             if forced_first:
                 steps.append(0.0)
             else:
-                lg = state_logits(n, 0, 0, avail)
+                lg = state_logits(n, 0, 0, avail, tag=tag)
                 rowx = [XR(False, l, s_not(av)) for l, av in zip(lg, avail)]
                 lsm = lsm_stub(T.Tensor(np.array([rowx], dtype=object), T.float32), -1, True).a[0]
                 p = pick(a, [x.v for x in lsm])
@@ -86,7 +87,7 @@ def rederive(n, seq, forced_first):
             first = cur = a
             avail = [s_not(s_eq(a, j)) for j in range(n)]
             continue
-        lg = state_logits(n, first, cur, avail)
+        lg = state_logits(n, first, cur, avail, tag=tag)
         rowx = [XR(False, l, s_not(av)) for l, av in zip(lg, avail)]
         lsm = lsm_stub(T.Tensor(np.array([rowx], dtype=object), T.float32), -1, True).a[0]
         p = pick(a, [x.v for x in lsm])
@@ -146,7 +147,7 @@ def ll_job(job_id, decode_type="greedy", n=3, B=2, num_starts=None, source_filte
         ctx.prove(E, f"[{nm}] one row per (instance, start)", rows == B * k and tuple(ll.shape) == (rows,), cexb)
         for r in range(rows):
             seq = list(acts.a[r])
-            total, _ = rederive(n, seq, forced_first=multi)
+            total, _ = rederive(n, seq, forced_first=multi, tag=locs.a[r % B, 0, 0])  # row r belongs to instance r mod B
             ctx.prove(E, f"[{nm}] row {r}: returned actions form a permutation", z3.Distinct(*[T._int(x) for x in seq]) if n > 1 else True, cexb)
             ctx.prove(E, f"[{nm}] row {r}: log-likelihood == sum over steps of the masked-normalised log-probability of the action taken{' (forced first move contributes 0)' if multi else ''}",
                       s_eq(_val(ll.a[r]), total), cexb)
@@ -161,7 +162,7 @@ def ll_job(job_id, decode_type="greedy", n=3, B=2, num_starts=None, source_filte
             E.obligations = []
             ll2 = out2["log_likelihood"]
             for r in range(rows):
-                _, steps = rederive(n, list(acts.a[r]), forced_first=False)
+                _, steps = rederive(n, list(acts.a[r]), forced_first=False, tag=locs.a[r % B, 0, 0])
                 ctx.prove(E, f"[{nm}] row {r}: evaluating the returned actions reproduces the same per-step log-probabilities", all_([s_eq(_val(ll2.a[r, t]), steps[t]) for t in range(n)]), cexb)
                 ctx.prove(E, f"[{nm}] row {r}: evaluation returns the same reward", s_eq(out2["reward"].a[r], out["reward"].a[r]), cexb)
                 ctx.prove(E, f"[{nm}] row {r}: the summed evaluation log-likelihood equals the rollout's (PPO ratio starts at 1)",
@@ -208,9 +209,34 @@ def beam_job(job_id, n=3, W=2, B=2, select_best=False, source_filter=None):
         return [{"kind": "script", "path": core.ROOT + "/vf/torch_side", "module": "policy_side", "func": "run_beam", "model_kind": "plain", "mode": "C13",
                  "params": {"n": n, "W": W, "B": B, "select_best": select_best}}]
 
+    base = w.load("rl4co.models.common.constructive.base")
+    orig_gds = base.get_decoding_strategy
+    captured = {}
+
+    def capture(*a, **k):
+        captured["strategy"] = orig_gds(*a, **k)
+        return captured["strategy"]
+
+    base.get_decoding_strategy = capture
+
+    if select_best:
+        # best-selection is about WHICH row is picked, not about tour lengths: the reward is an uninterpreted function of
+        # (instance, returned sequence), so that different beams can differ in reward already at small n
+        def abstract_reward(td_, actions):
+            rows_ = actions.shape[0]
+            out_ = np.empty((rows_,), dtype=object)
+            for r_ in range(rows_):
+                args_ = [_real(td_["locs"].a[r_, 0, 0])] + [_real(x) for x in actions.a[r_]]
+                out_[r_] = nnmod.UF("R", len(args_))(*args_)
+            return T.Tensor(out_, T.float32)
+
+        env.get_reward = abstract_reward
+        ctx.stubs.add("reward: uninterpreted function of (instance, action sequence) in the best-selection jobs")
+
     def harness():
         locs = T.sym_tensor("loc", (B, n, 2), T.float32)
         td = env.reset(TensorDict({"locs": locs}, batch_size=[B]))
+        captured.clear()
         try:
             out = policy(td.clone(), env, phase="test", decode_type="beam_search", beam_width=W, select_best=select_best)
         except AssertionError as e:
@@ -226,8 +252,50 @@ def beam_job(job_id, n=3, W=2, B=2, select_best=False, source_filter=None):
         for r in range(rows):
             seq = list(acts.a[r])
             ctx.prove(E, f"[{nm}] row {r}: the returned beam is a complete feasible tour (permutation)", z3.Distinct(*[T._int(x) for x in seq]), cexb)
-            total, _ = rederive(n, seq, forced_first=True)
+            total, _ = rederive(n, seq, forced_first=True, tag=locs.a[(r if select_best else r % B), 0, 0])  # beam rows: r mod B; selected rows: instance r
             ctx.prove(E, f"[{nm}] row {r}: its log-likelihood is what the policy assigns along that very sequence (parents reconstructed consistently)", s_eq(_val(ll.a[r]), total), cexb)
+        strat = captured.get("strategy")
+        if not select_best and strat is not None and len(strat.actions) == n and len(strat.beam_path) == n:
+            # per step: the kept beams of an instance are its W highest-scoring expansions, scored by the TRUE cumulative
+            # log-probability of the expanded prefix (re-derived independently from the prefix itself).
+            # documented layout: row = beam * B + instance; parent index p of a row points at row instance + p * B.
+            prefixes = [[strat.actions[0].a[r]] for r in range(B * W)]
+            for t in range(1, n):
+                par, act = strat.beam_path[t].a, strat.actions[t].a
+                new_prefixes = []
+                for b in range(B):
+                    cands = []  # (parent beam, action, feasible, score)
+                    for p_ in range(W):
+                        pre = prefixes[p_ * B + b]
+                        for a_ in range(n):
+                            feas = all_([T.s_ne(x, a_) for x in pre])
+                            sc, _ = rederive(n, pre + [a_], forced_first=True, tag=locs.a[b, 0, 0])
+                            cands.append((p_, a_, feas, sc))
+                    sel = [(par[j * B + b], act[j * B + b]) for j in range(W)]
+                    sel_sc = []
+                    for sp, sa in sel:
+                        v = 0.0
+                        for p_, a_, feas, sc in cands:
+                            v = T.s_where(s_and(s_eq(sp, p_), s_eq(sa, a_)), sc, v)
+                        sel_sc.append(v)
+                    conds = []
+                    for p_, a_, feas, sc in cands:
+                        chosen = any_([s_and(s_eq(sp, p_), s_eq(sa, a_)) for sp, sa in sel])
+                        conds.append(s_or(s_not(feas), s_or(chosen, all_([T.s_le(sc, v) for v in sel_sc]))))
+                    ctx.prove(E, f"[{nm}] step {t}, instance {b}: every expansion that was not kept scores no higher than each kept one (true cumulative log-probability of the prefix)", all_(conds), cexb)
+                    ctx.prove(E, f"[{nm}] step {t}, instance {b}: the kept expansions are feasible and pairwise different",
+                              s_and(all_([any_([s_and(s_and(s_eq(sp, p_), s_eq(sa, a_)), feas) for p_, a_, feas, sc in cands]) for sp, sa in sel]),
+                                    all_([s_not(s_and(s_eq(sel[i][0], sel[j][0]), s_eq(sel[i][1], sel[j][1]))) for i in range(W) for j in range(i + 1, W)])), cexb)
+                for r in range(B * W):
+                    b, pr = r % B, par[r]
+                    pre = [None] * t
+                    for k in range(t):
+                        v = prefixes[b][k]
+                        for p_ in range(1, W):
+                            v = T.s_where(s_eq(pr, p_), prefixes[p_ * B + b][k], v)
+                        pre[k] = v
+                    new_prefixes.append(pre + [act[r]])
+                prefixes = new_prefixes
         if not select_best:
             for r1 in range(rows):
                 for r2 in range(r1 + 1, rows):
